@@ -163,6 +163,44 @@ pub fn run(ctx: &'static Ctx) {
             l.fail(ctx, idx, v, || json!({"kind": "cmd-payload", "byte": byte, "payload": hex(&pl)}));
         }
     });
+    // the prototype credential-management byte must decode exactly like 0x0A: all 3-byte payloads
+    sweep(ctx, "0x41 vs 0x0A on every 3-byte payload", 1 << 24, "complete", |idx, l| {
+        let p = [(idx >> 16) as u8, (idx >> 8) as u8, idx as u8];
+        l.nontrivial += 1;
+        let v = check_point(0x41, &p);
+        l.bump("prototype alias");
+        if !v.ok {
+            l.fail(ctx, idx, v, || json!({"kind": "cmd-payload", "byte": 0x41, "payload": hex(&p)}));
+        }
+    });
+    // ... and on every member subset and every single value deviation of a CredentialManagement message
+    {
+        let plan = Plan::new(&request_schema(Cmd::CredentialManagement).unwrap(), Side::Request);
+        let mut payloads: Vec<Vec<u8>> = Vec::new();
+        for m in 0..(1u64 << plan.opts.len()) {
+            if plan.valid(m) {
+                payloads.push(crate::refcbor::encode(&plan.build(m, &[])));
+            }
+        }
+        for anchor in [0u64, plan.full_mask()] {
+            for (li, info) in plan.leaves.iter().enumerate() {
+                if plan.leaf_enabled(li, anchor) {
+                    for i in 1..info.menu.len() {
+                        payloads.push(crate::refcbor::encode(&plan.build(anchor, &[(li, i)])));
+                    }
+                }
+            }
+        }
+        let pr = &payloads;
+        sweep(ctx, "0x41 vs 0x0A on the credential-management corpus", payloads.len() as u64, "every member subset and every single menu-value deviation (all sub-commands) of a CredentialManagement parameter map", move |idx, l| {
+            l.nontrivial += 1;
+            let v = check_point(0x41, &pr[idx as usize]);
+            l.bump("prototype alias");
+            if !v.ok {
+                l.fail(ctx, idx, v, || json!({"kind": "cmd-payload", "byte": 0x41, "payload": hex(&pr[idx as usize])}));
+            }
+        });
+    }
     sweep(ctx, "operation tables", 256, "Operation::try_from / into u8 / VendorOperation over all 256 bytes", |idx, l| {
         l.nontrivial += 1;
         let v = check_tables(idx as u8);
